@@ -73,6 +73,7 @@ func renameAcc(m map[string]string, a string) string {
 // descriptions, several (multi-balance) assertions per day, empty and multiple performance
 // targets, identical transactions on one day
 func genC09Journal(r *rng, o genOpts) Journal {
+	o.assertions = false // computed below, after the transactions are final
 	j := genJournal(r, o)
 	// Unicode account names
 	ren := map[string]string{}
@@ -116,7 +117,7 @@ func genC09Journal(r *rng, o genOpts) Journal {
 			if d.HasPerf && r.chance(30) {
 				d.Targets = append(d.Targets, pick(r, o.commodities))
 			}
-			if r.chance(8) && perDay[d.Date] <= 6 && d.Accrual == nil {
+			if r.chance(8) && perDay[d.Date] <= 6 && d.Accrual == nil && !usesTemp(*d) {
 				c := *d
 				c.Bookings = append([]Booking(nil), d.Bookings...)
 				if r.chance(50) { // differs in the annotation only: equal under transaction.Compare
@@ -126,6 +127,42 @@ func genC09Journal(r *rng, o genOpts) Journal {
 				perDay[d.Date]++
 				extra = append(extra, c)
 			}
+		}
+	}
+	insert := func(extra Journal) {
+		for _, e := range extra {
+			k := r.intn(len(j) + 1)
+			j = append(j, Dir{})
+			copy(j[k+1:], j[k:])
+			j[k] = e
+		}
+	}
+	insert(extra)
+	extra = nil
+	// assertions on the running quantities; the accrual account and the account that gets closed are left out
+	skip := ""
+	for _, d := range j {
+		if d.Accrual != nil {
+			skip = d.Accrual.Account
+		}
+	}
+	for _, a := range genAssertions(r, j, skip) {
+		var bals []Bal
+		for _, b := range a.Bals {
+			if b.Acc != "Assets:Temp" {
+				bals = append(bals, b)
+			}
+		}
+		if len(bals) > 0 {
+			a.Bals = bals
+			extra = append(extra, a)
+		}
+	}
+	insert(extra)
+	extra = nil
+	for i := range j {
+		d := &j[i]
+		switch d.Kind {
 		case 'A':
 			// further assertions on the same day (the running quantities are those of the end of the day)
 			n := 0
@@ -148,14 +185,17 @@ func genC09Journal(r *rng, o genOpts) Journal {
 			}
 		}
 	}
-	// insert the extra directives at random places
-	for _, e := range extra {
-		k := r.intn(len(j) + 1)
-		j = append(j, Dir{})
-		copy(j[k+1:], j[k:])
-		j[k] = e
-	}
+	insert(extra)
 	return j
+}
+
+func usesTemp(d Dir) bool {
+	for _, b := range d.Bookings {
+		if b.Credit == "Assets:Temp" || b.Debit == "Assets:Temp" {
+			return true
+		}
+	}
+	return false
 }
 
 func genC09(out *caseWriter, seed uint64, n int, args []string) error {
@@ -231,7 +271,8 @@ func firstDiff(a, b string) int {
 
 // input: "<cfg1> ## <cfg2> | <journal>"
 // observed: "ERR" etc. when `print J` fails, otherwise
-//   OK <P1> | reprint=same|diff@<offset>|<class> | check=ok|<class> | bal=same|diff@<k>
+//
+//	OK <P1> | reprint=same|diff@<offset>|<class> | check=ok|<class> | bal=same|diff@<k>
 func obsC09Print(in string) string {
 	cfgS, jS := splitInput(in)
 	j := DecodeJournal(jS)
@@ -352,8 +393,9 @@ func c09ParseDirective(reg *registry.Registry, w directives.Directive) (res stri
 }
 
 // input: journal text in hex; observed: "SYNTAX" or one entry per syntax directive, joined by " "
-//   [d;d;...]   the model directives model.ParseDirective returns for it, rendered
-//   ERR:<class> its error (date | decimal | account | interval), PANIC
+//
+//	[d;d;...]   the model directives model.ParseDirective returns for it, rendered
+//	ERR:<class> its error (date | decimal | account | interval), PANIC
 func obsC09Model(in string) (res string) {
 	defer func() {
 		if r := recover(); r != nil {
